@@ -5,7 +5,8 @@ import PnVerif.Model.HeaderText
 
     V <hexfile>            -> V <verdict> <spec>
                                 verdict = Tools.validateCode (ok | enullpad | <fatal error>)
-                                spec    = 1 if Spec.specDecode (the independent BNF decoder) accepts, else 0
+                                spec    = 0 Spec.specDecode (the independent BNF decoder) rejects | 1 decodes, invalid
+                                          dimension references or begins out of order | 2 valid
     D <hexA> <hexB>        -> D <cdfdiff> <ncmpidiff> <leq>
                                 cdfdiff   = Tools.toolDiff cdfdiffCfg on the validator's parse of both files:
                                             crash | invalid | <numHeadDIFF>,<numVarDIFF>
@@ -32,11 +33,22 @@ def libView (f : Bytes) : Option LFile :=
   | .ok (h, info) => some (absFile h info.recsize f)
   | .error _ => none
 
+/-- 0 = the BNF decoder rejects; 1 = decodes, but a dimension reference is invalid or the begins are out of
+    order / overlap (Spec.refsOk, Spec.chainFrom); 2 = valid -/
+def specLevel (f : Bytes) : Nat :=
+  match specDecode f with
+  | none => 0
+  | some d =>
+    let chainOk := match d.chainFrom false d.vars (Hdr.len d) with
+      | some e => (d.chainFrom true d.vars e).isSome
+      | none => false
+    if d.refsOk && chainOk then 2 else 1
+
 def step (line : String) : String :=
   match tokens line.trimAscii.toString with
   | ["V", hx] =>
     match ofHex hx with
-    | some f => s!"V {validateCode f} {if (specDecode f).isSome then 1 else 0}"
+    | some f => s!"V {validateCode f} {specLevel f}"
     | none => "bad-hex"
   | ["D", ha, hb] =>
     match ofHex ha, ofHex hb with
